@@ -182,6 +182,21 @@ def run(ctx):
                       f"{s!r}: {_s(at_g)} vs {_s(at_f)}", site, witness=s, sample=s)
         except SymRaise as exc:
             ctx.fail("R4", f"{label}: str parses back", f"{s!r} is rejected ({exc.exc})", site, witness=s)
+    # a printed formula is read back as a compound whatever element it starts with - in particular elements whose
+    # symbols resemble the unit and percentage words of the mixture syntax (Mg/mg, Cm/cm, V/vol, W/wt, Mo/mass ...)
+    lead = [v[1] for z, v in base.items() if z > 0] if ctx.thorough else ["Mg", "Cm", "V", "W", "Mo", "Mn", "Md", "Nb", "N", "U", "K", "Kr", "Li", "Lu"]
+    nlead = 0
+    for sym_ in lead:
+        X = E(sym_)
+        if X is E("O"):
+            continue
+        for second in ("O", "H"):
+            f_ = I.call(fm, [[(sp.Integer(1), X), (sp.Integer(2), E(second))]], {"table": T})
+            before = len([o for o in ctx.obs if not o.ok])
+            roundtrip("R4", f"round trip of {sym_}{second}2 (leading element {sym_})", f_)
+            nlead += 1
+            if len([o for o in ctx.obs if not o.ok]) - before and nlead > 6:
+                break
     # an unnamed mixture of named components prints as a grammar string, not as a component's name
     for mode in ("mix_by_weight", "mix_by_volume"):
         water = I.call(fm, ["H2O@1"], {"table": T, "name": "water"})
@@ -198,6 +213,6 @@ def run(ctx):
                       f"{s!r}: {_s(at_g)} vs {_s(at_f)}", site, witness=s, sample=s)
         except SymRaise as exc:
             ctx.fail("R4", f"{mode} of named components: str parses back", f"{s!r} is rejected ({exc.exc})", site, witness=s)
-    ctx.floor("R4", 34)
+    ctx.floor("R4", 60)
     ctx.unit("formulas_round_tripped", len(made) + len(extra))
     ctx.assume("'%g' and '%.*f' formatting are CPython's (library semantics); the PEG model of pyparsing is trusted (see C01)")
